@@ -6,7 +6,7 @@ import YaegiVerif.Spec.GoConst
   first place (post-order) where the model of the unchanged interpreter and the Go-spec model part ways.
   The harness attaches the label to a failing input; KNOWN_FINDINGS.json lists the classes that are known
   (after the repairs of the third round: `typed-decl-mismatch` F03-18, `bool-shift-panic` F03-19,
-  `unmodelled:len-at-run-time` F03-20, `huge-literal` F03-21, `const-second-walk` / `block-interplay` F03-14).
+  `unmodelled:len-at-run-time` F03-20, `huge-literal` F03-21, `string-codepoint-wrap` F03-22, `const-second-walk` / `block-interplay` F03-14).
   (Glue for reporting; no theorem depends on it.)
 -/
 namespace YaegiVerif.Const.Class
@@ -76,6 +76,17 @@ def labelNode (F : Facts) (env : Env) (e : CExpr) : String :=
   | .int v =>
     -- an integer literal of more than 512 bits: the toolchain refuses it, the interpreter has no limit on literals (F03-21)
     if bitLen v > Spec.maxUntypedBits then "huge-literal" else "node-other"
+  | .conv .str x =>
+    -- string(c) for an untyped integer constant outside the int32 range: the interpreter converts through
+    -- `rune(int64)`, which keeps the low 32 bits (F03-22)
+    if c == .value && (goTy env.iota x == some (.u .int) || goTy env.iota x == some (.u .rune)) then "string-codepoint-wrap"
+    else (match c with
+      | .yCrash => "node-panic"
+      | .yOkGReject => "node-accepts-invalid"
+      | .yRejectGOk => "node-rejects-valid"
+      | .typeOnly => "node-type"
+      | .value => "node-value"
+      | _ => "node-other")
   | .bin a x _ =>
     if isShiftAct a && c == .yCrash && goTy env.iota x == some (.u .bool) then "bool-shift-panic"
     else (match c with
@@ -111,14 +122,19 @@ def classifyDecl (F : Facts) (ctx : Ctx) (iota : Nat) (declT : Option BT) (e : C
   let agree : Bool := match y, g with
     | .ok [v], .ok w => v == w
     | .reject, .reject => true
-    | .rejectOrCrash, .reject => true     -- the first walk rejects; the harness accepts only `reject` from the real code
     | _, _ => false
+  let env : Env := { iota := iota, inConst := ctx == .const }
   if agree then "-"
+  else if y == .rejectOrCrash && (match g with | .reject => true | _ => false) then
+    -- the first walk rejects and so does Go; the harness accepts only `reject` from the real code, unless a
+    -- sub-expression is one on which a walk panics (then the retry of the declaration panics too)
+    (match firstDiv F env e with
+     | some s => if compare (evalY F env none s) (Spec.evalGo iota s) == .yCrash then labelNode F env s else "-"
+     | none => "-")
   else if declMismatch iota declT e then "typed-decl-mismatch"
   else match y with
     | .unm w => "unmodelled:" ++ w
     | _ =>
-      let env : Env := { iota := iota, inConst := ctx == .const }
       match firstDiv F env e with
       | some s => labelNode F env s
       | none =>
